@@ -270,7 +270,9 @@ func runC03(r *vk.Run) {
 					mod[i].Raw = vk.Pick(c.Rng, []string{"notatime body", "2024-13-01T00:00:00Z x", "1700000000 x", "2024-01-01 00:00:00 x", "T x",
 						// Docker's own fixed-width shape with one field out of range
 						"2024-13-01T00:00:00.000000000Z x", "2023-02-30T10:00:00.123456789Z x", "2023-02-29T10:00:00.000000000Z x", "2024-01-01T24:00:00.000000000Z x",
-						"2024-01-01T10:60:00.000000000Z x", "2024-01-01T10:00:60.000000000Z x", "2024-01-00T10:00:00.000000000Z x", "2024-00-10T10:00:00.000000000Z x", "2024-04-31T00:00:00.000000000Z x"})
+						"2024-01-01T10:60:00.000000000Z x", "2024-01-01T10:00:60.000000000Z x", "2024-01-00T10:00:00.000000000Z x", "2024-00-10T10:00:00.000000000Z x", "2024-04-31T00:00:00.000000000Z x",
+						// ... or one digit position holding a byte below '0'
+						"2024-01-0/T10:00:00.000000000Z x", "20 4-01-01T10:00:00.000000000Z x", "2024-01-01T10:00:00.00000000\x00Z x", "2024-01-01T1+:00:00.000000000Z x", "2024-01-01T10:00:00.-00000000Z x", ",024-01-01T10:00:00.000000000Z x", "2024-01-01T10:00:00.000/00000Z x"})
 				case "no-space":
 					mod[i].Raw = vk.Pick(c.Rng, []string{"2024-01-01T00:00:00Z", "nospace", "x"})
 				case "empty-payload":
@@ -501,6 +503,7 @@ func runC03(r *vk.Run) {
 		}
 		c.Nontrivial(fmt.Sprintf("readerr:%x", data))
 	})
+	phaseReuse(r)
 	r.Require("streams", 100)
 	r.Require("cut_body", 1000)
 	r.Require("cut_header", 500)
